@@ -323,7 +323,11 @@ func cmdCheck(args []string) int {
 			writeReplayFile(path, id, j, p.f)
 			confirmed, why := true, "not replayed natively: "+j.Note
 			schedDep := false
-			if !j.NoReplay {
+			if p.f.Kind == "structural" {
+				// engine-observed structural breach (e.g. an object put into its pool twice): there is no
+				// native observation point for it; reported with the engine's trace
+				confirmed, why = true, ""
+			} else if !j.NoReplay {
 				if j.Sched && p.f.Kind == "assert" {
 					rp.stress = 3000
 				}
